@@ -23,13 +23,13 @@ CLAIMED = {
    technique='Coq proof over source-regenerated kernels (translator) + row/plane induction + correspondence check + exhaustive 2^24 search on failure',
    ref='DESIGN.md section 6 C13'),
  'C05': dict(
-   text='PARTIAL proof. Proved for all inputs: plane-level conversion of a lossy frame = libwebp no-fancy BT.601 of (Y[x,y],U[x/2,y/2],V[x/2,y/2]) for every '
-        'width >= 1 / height / parity, RGB and RGBA writers (kernels regenerated from vp8.rs every run); the in-place alpha loop = container-spec un-filtering for '
-        'all four filters incl. first row/column, colour bytes untouched. Inherited, not proved: planes = RFC 6386 reconstruction (C02), compressed ALPH = VP8L spec (C01); '
-        'those links are covered by whole-still correspondence read_image = Spec.Still.decode_still (composed executable Coq spec) on generated stills with every ALPH variant.',
+   text='Coq theorems RIC.read_image_lossy_closed / RIC.read_image_equals_still_spec_closed (FULL up to the side conditions of C02 and C01): for every well-formed lossy still (simple or VP8X, every ALPH '
+        'variant: raw / lossless, filters 0..3, alpha flag without ALPH) whose key frame the reference decodes, the model of read_image (Model/ReadImage.v with the frame decoder instantiated by Model.Vp8Decode) '
+        'returns exactly the pixels of the composed specification Spec.Still.decode_still: libwebp no-fancy BT.601 conversion of the reference planes, woven with the un-filtered alpha plane (lossless ALPH by the C01 '
+        'theorems), for every prior buffer content; wrong buffer lengths and frame/canvas mismatches rejected untouched. Layers: conversion kernels regenerated from vp8.rs (C13), plane loops, alpha loop, glue.',
    note='Trusted: Coq kernel, rs2v translator, hand models Model/Yuv.v and Model/Alpha.v (correspondence-checked through hooks fill_rgb/fill_rgba/apply_alpha), '
         'Spec/YUV.v (transcription of libwebp yuv.h) and Spec/Alpha.v (container spec text).',
-   technique='Coq proof (translated kernels + loop induction) + correspondence check',
+   technique='Coq proof (read_image model = composed executable specification; translated kernels, loop induction, C01/C02 refinements) + correspondence checks',
    ref='DESIGN.md section 6 C05'),
  'C11': dict(
    text='PARTIAL proof + direct decision. Proved: the modelled write paths of read_image determine every output byte from the file alone (lossy RGB; lossy RGBA colour bytes; '
@@ -74,17 +74,15 @@ CLAIMED = {
    technique='Coq proof (state-machine invariant by induction over call sequences) + correspondence check on op sequences',
    ref='DESIGN.md section 6 C07'),
  'C02': dict(
-   text='PARTIAL proof. Proved and re-checked against the source-regenerated Gen files every run: every table vp8.rs decodes with equals the normative table (coefficient '
-        'probabilities and update probabilities, key-frame mode trees/probabilities incl. the 10x10x9 sub-block contexts, token tree, categories, bands, zig-zag, DC/AC quantisers) '
-        'modulo an explicit bijective renumbering; scalar kernels (avg2/avg3, loop-filter clamps and conversions) equal the reference forms; the imperative kernels translated every run by rs2v_imp '
-        '(simple / sub-block / macroblock edge filters at every edge position of every array, idct4x4, iwht4x4 within the sharp exact-cast bounds) equal Spec.VP8; calculate_filter_parameters = '
-        'Spec filter_strength; the per-segment block of read_quantization_indices = Spec segment_quant (six dequantisation factors) for every expressible header, without overflow. The parsing functions (Model/Vp8Parse.v over the C15 boolean-decoder model, tied by the vp8parse correspondence on a real Vp8Decoder) equal the reference parser function by function '
-        '(read_coefficients, read_macroblock_header, the header blocks, read_residual_data for both macroblock kinds); intra prediction (Model/Vp8Predict.v: 4x4, 16x16, 8x8 predictors, add_residue, borders) equals the reference predictors. Frame-level parsing is proved: read_frame_header = the reference header in every field, and header + macroblock loop of decode_frame_ (Model/Vp8Frame.v, tied to the real decode_frame_ by recording hooks) = the reference parse of every macroblock (F.parse_frame_refines). Frame-level reconstruction is proved too: per-macroblock prediction incl. the sub-block loop and write-back, the loop-filter pass and the crop (Model/Vp8Recon.v, tied to the real decode_frame_ by recording hooks), fed the reference parse results, give exactly the planes of Spec.VP8.decode_frame (X.decode_frame_recon_is_spec). Only the last composition step (parse relation => reconstruction input relation, i.e. one theorem decode_frame = Spec.VP8.decode) is not yet stated. (Formerly:) the '
-        'workspace/border bookkeeping are NOT proved: they are covered by whole-frame correspondence implementation = Spec.VP8.decode (executable Coq transcription of libwebp, '
-        'validated against compiled libwebp each run) on generated key frames, plus native comparison with libwebp.',
+   text='Coq theorem D.decode_frame_is_spec (FULL up to four stated, decidable side conditions): for every payload the reference decodes (Spec.VP8.decode_frame, executable transcription of libwebp validated '
+        'against the compiled libwebp each run), with the reserved colour-space bit clear, no partition starting with byte 0xFF (the C15 hypothesis) and per-segment loop-filter base level in 0..63 (the documented '
+        'clamp difference between libwebp and the RFC reference; necessity machine-checked), the Model of Vp8Decoder::decode_frame returns exactly the reference frame: same size, same Y, U, V samples. '
+        'Proved in layers, each restated in Properties/C02.v: all tables = normative; scalar and imperative kernels (loop filters, IDCT, WHT, filter parameters, dequantisation) translated from the source every run = reference; '
+        'parsing functions (module P), frame-level parsing incl. read_frame_header in every field and the commuting interleaving of partitions (module F), intra prediction (module I), '
+        'frame-level reconstruction, loop-filter pass and crop (module X), final composition incl. "the reference is one byte stricter on truncated partitions" (module D).',
    note='Trusted: Coq kernel, rs2v translator, Spec/VP8.v + Spec/VP8Tables.v (hand transcription of libwebp 1.3.1; RFC 6386 text unavailable offline) validated by c02spec, extraction, '
         'the key-frame writer of the harness. Excluded from valid: filter levels leaving [0,63] before deltas, reserved colour-space bit, coefficients outside the 16-bit reference range.',
-   technique='Coq proof (tables + kernels over source-regenerated definitions) + whole-frame correspondence against extracted Coq spec',
+   technique='Coq proof (refinement of the Rust-mirroring frame decoder model to the executable reference, kernels and tables regenerated from the source) + component and whole-frame correspondence',
    ref='DESIGN.md section 6 C02'),
  'C01': dict(
    text='Coq theorem R.frame_matches_spec (FULL up to two stated, decidable format conditions): for every stream the specification (Spec.VP8L, executable transcription validated against libwebp '
